@@ -57,7 +57,7 @@ class RootLinearOperator(LinearOperator):
 
         left_tensor = self.root._getitem(row_index, _noop_index, *batch_indices)
         if _equal_indices(row_index, col_index):
-            res = self.__class__(left_tensor)
+            res = RootLinearOperator(left_tensor)
         else:
             right_tensor = self.root._getitem(col_index, _noop_index, *batch_indices)
             res = MatmulLinearOperator(left_tensor, right_tensor.mT)
